@@ -728,13 +728,33 @@ fn rejected_probes(cfg: &TxnCfg, env: &crate::common::Env, db: RawDb, wtxn: &mut
                     for l in [0usize, dim.saturating_sub(1), dim + 1, 2 * dim, 1000] {
                         if l == dim { continue; }
                         let v = vec![1.0f32; l];
-                        w.count("rejected_probes", 1);
-                        match reader.nns(3).by_vector(wtxn, &v) {
-                            Err(arroy::Error::InvalidVecDimension { expected, received }) if expected == dim && received == l => {}
-                            other => {
-                                bad = Some(format!("by_vector with {l} components on a {dim}-dimensional index returned {:?}", other.map_err(|e| e.to_string())));
-                                break;
+                        // every query option that could make the answer trivially empty: the length is judged first
+                        let empty = roaring::RoaringBitmap::new();
+                        let disjoint: roaring::RoaringBitmap = [u32::MAX - 7].into_iter().collect();
+                        let all: roaring::RoaringBitmap = ix.items.keys().copied().collect();
+                        'options: for count in [3usize, 0, usize::MAX] {
+                            for (fname, filter) in [("none", None), ("empty", Some(&empty)), ("disjoint", Some(&disjoint)), ("all items", Some(&all))] {
+                                for budget in [None, Some(1usize)] {
+                                    w.count("rejected_probes", 1);
+                                    let mut q = reader.nns(count);
+                                    if let Some(f) = filter {
+                                        q.candidates(f);
+                                    }
+                                    if let Some(b) = budget.and_then(std::num::NonZeroUsize::new) {
+                                        q.search_k(b);
+                                    }
+                                    match q.by_vector(wtxn, &v) {
+                                        Err(arroy::Error::InvalidVecDimension { expected, received }) if expected == dim && received == l => {}
+                                        other => {
+                                            bad = Some(format!("nns({count}) candidates={fname} search_k={budget:?} by_vector with {l} components on a {dim}-dimensional index returned {:?}", other.map_err(|e| e.to_string())));
+                                            break 'options;
+                                        }
+                                    }
+                                }
                             }
+                        }
+                        if bad.is_some() {
+                            break;
                         }
                     }
                 }
